@@ -14,9 +14,11 @@ from __future__ import annotations
 
 import itertools
 import logging
+import os
 import pickle  # noqa: S403
 import re
 import sys
+import tempfile
 import warnings
 from abc import abstractmethod
 from importlib.metadata import version
@@ -376,13 +378,50 @@ def perform_cached_doit(
     cache_directory.mkdir(exist_ok=True, parents=True)
     h = get_readable_hash(unevaluated_expr)
     filename = cache_directory / f"{h}.pkl"
-    if filename.exists():
-        with open(filename, "rb") as f:
-            return pickle.load(f)  # noqa: S301
+    unfolded_expr = _load_cached_doit(filename, unevaluated_expr)
+    if unfolded_expr is not None:
+        return unfolded_expr
     _LOGGER.warning(
         f"Cached expression file {filename} not found, performing doit()..."
     )
     unfolded_expr = unevaluated_expr.doit()
-    with open(filename, "wb") as f:
-        pickle.dump(unfolded_expr, f)
+    _dump_cached_doit(filename, unevaluated_expr, unfolded_expr)
     return unfolded_expr
+
+
+def _load_cached_doit(filename: Path, unevaluated_expr: sp.Expr) -> sp.Expr | None:
+    """Get the unfolded expression from a cache file if it was written for this expression.
+
+    The file name only contains a hash of the expression, which is not unique (see
+    :func:`.get_readable_hash`), so the original expression is stored in the file as
+    well. Anything that is not a complete cache entry for :code:`unevaluated_expr`, such
+    as a file that is still being written or that was left behind by a killed process,
+    is ignored.
+    """
+    try:
+        with open(filename, "rb") as f:
+            cached_expr, unfolded_expr = pickle.load(f)  # noqa: S301
+    except FileNotFoundError:
+        return None
+    except Exception:  # noqa: BLE001
+        _LOGGER.warning(f"Could not read cached expression file {filename}")
+        return None
+    if not isinstance(unfolded_expr, sp.Basic) or cached_expr != unevaluated_expr:
+        return None
+    return unfolded_expr
+
+
+def _dump_cached_doit(
+    filename: Path, unevaluated_expr: sp.Expr, unfolded_expr: sp.Expr
+) -> None:
+    """Write a cache entry so that other processes only ever see it completely."""
+    fd, tmp_filename = tempfile.mkstemp(
+        dir=filename.parent, prefix=f"{filename.stem}-", suffix=".tmp"
+    )
+    try:
+        with os.fdopen(fd, "wb") as f:
+            pickle.dump((unevaluated_expr, unfolded_expr), f)
+        os.replace(tmp_filename, filename)
+    except BaseException:
+        os.unlink(tmp_filename)
+        raise
